@@ -510,6 +510,82 @@ Proof.
   apply (binds_agree f a b i Va Vb P'). apply (covers_in f n); [exact C | lia].
 Qed.
 
+(** ** Argument signatures: the decidable typing side condition *)
+
+Inductive kind := KStr | KNum | KHash | KRaw.
+
+Definition val_ok (k : kind) (v : val) : bool :=
+  match k, v with
+  | KStr, VS s => no_sep s
+  | KNum, VN n => n <? two64
+  | KHash, VS s => Nat.eqb (length s) 32
+  | KRaw, VS _ => true
+  | _, _ => false
+  end.
+
+Fixpoint args_ok (sg : list kind) (a : args) : bool :=
+  match sg, a with
+  | [], [] => true
+  | k :: sg', v :: a' => val_ok k v && args_ok sg' a'
+  | _, _ => false
+  end.
+
+Definition kind_eqb (a b : kind) : bool :=
+  match a, b with KStr, KStr | KNum, KNum | KHash, KHash | KRaw, KRaw => true | _, _ => false end.
+
+Definition item_typed (sg : list kind) (it : item) : bool :=
+  match it with
+  | Lit _ | Sep => true
+  | Str i => match nth_error sg i with Some k => kind_eqb k KStr | None => false end
+  | Dec i | BE64 i => match nth_error sg i with Some k => kind_eqb k KNum | None => false end
+  | Hex32 i => match nth_error sg i with Some k => kind_eqb k KHash | None => false end
+  | Raw i => match nth_error sg i with Some k => kind_eqb k KRaw || kind_eqb k KStr | None => false end
+  end.
+
+(** every item refers to an argument of the right kind *)
+Definition typed (f : fmt) (sg : list kind) : bool := forallb (item_typed sg) f.
+
+Lemma args_ok_length sg a : args_ok sg a = true -> length a = length sg.
+Proof.
+  revert a; induction sg as [|k sg IH]; intros [|v a]; cbn; try discriminate; [reflexivity|].
+  intro H. apply andb_true_iff in H as [_ H]. f_equal. auto.
+Qed.
+
+Lemma args_ok_nth sg a i k :
+  args_ok sg a = true -> nth_error sg i = Some k -> exists v, nth_error a i = Some v /\ val_ok k v = true.
+Proof.
+  revert a i; induction sg as [|k0 sg IH]; intros [|v a] [|i]; cbn; try discriminate.
+  - intros H [= ->]. apply andb_true_iff in H as [H _]. eauto.
+  - intros H E. apply andb_true_iff in H as [_ H]. eauto.
+Qed.
+
+Lemma typed_valid f sg a : typed f sg = true -> args_ok sg a = true -> valid f a = true.
+Proof.
+  unfold typed, valid. rewrite !forallb_forall. intros T A it Hit. specialize (T it Hit).
+  destruct it as [s| |i|i|i|i|i]; cbn in *; try reflexivity;
+    destruct (nth_error sg i) as [k|] eqn:E; try discriminate;
+    destruct (args_ok_nth sg a i k A E) as (v & -> & V); destruct k; try discriminate;
+    destruct v; cbn in V; try discriminate; auto.
+Qed.
+
+(** The generic injectivity lemma in the form the key theorems instantiate: all
+    three side conditions are closed Boolean computations on the regenerated term. *)
+Definition key_ok (f : fmt) (sg : list kind) : bool := wf f && covers f (length sg) && typed f sg.
+
+Theorem key_inj f sg a b :
+  key_ok f sg = true -> args_ok sg a = true -> args_ok sg b = true -> render f a = render f b -> a = b.
+Proof.
+  unfold key_ok. intros K A Bk E. apply andb_true_iff in K as [K T]. apply andb_true_iff in K as [W C].
+  apply (render_inj f (length sg)); auto using args_ok_length; eapply typed_valid; eauto.
+Qed.
+
+Theorem key_parse f sg a :
+  key_ok f sg = true -> args_ok sg a = true -> parse f (render f a) = Some (binds f a).
+Proof.
+  unfold key_ok. intros K A. apply andb_true_iff in K as [K T]. apply andb_true_iff in K as [W C].
+  apply parse_render; eauto using typed_valid.
+Qed.
+
 (** * Disjointness of two formats *)
 
 (** ** Literal heads: no key of one is a prefix of a key of the other *)
